@@ -344,8 +344,8 @@ func main() {
 		w := bufio.NewWriter(os.Stdout)
 		for _, l := range strings.Split(strings.TrimRight(string(data), "\n"), "\n") {
 			fmt.Fprintln(w, runImpl(l))
+			w.Flush() // per line: a reader that kills this process at a deadline must see which op did not return
 		}
-		w.Flush()
 		return
 	}
 
